@@ -311,6 +311,33 @@ fn read_with<T: ReadPacket + Send + Sync>(bytes: &[u8]) -> ReadObs<T> {
     }
 }
 
+/// An in-memory source that hands out at most `step` bytes per read: what a socket does when the
+/// packet arrives in pieces. Always ready, so the tiny executor still finishes in one pass.
+struct Dribble<'a> {
+    data: &'a [u8],
+    pos: usize,
+    step: usize,
+}
+
+impl tokio::io::AsyncRead for Dribble<'_> {
+    fn poll_read(mut self: std::pin::Pin<&mut Self>, _cx: &mut std::task::Context<'_>, buf: &mut tokio::io::ReadBuf<'_>) -> std::task::Poll<std::io::Result<()>> {
+        let n = self.step.min(self.data.len() - self.pos).min(buf.remaining());
+        buf.put_slice(&self.data[self.pos..self.pos + n]);
+        self.pos += n;
+        std::task::Poll::Ready(Ok(()))
+    }
+}
+
+fn read_dribbled<T: ReadPacket + Send + Sync>(bytes: &[u8], step: usize) -> ReadObs<T> {
+    let mut src = Dribble { data: bytes, pos: 0, step };
+    match drive(T::read_from_buffer(&mut src)) {
+        Run::Done(Ok(v)) => ReadObs::Value(v, src.pos),
+        Run::Done(Err(e)) => ReadObs::Error(e.to_string()),
+        Run::Pending => ReadObs::Pending,
+        Run::Panic(p) => ReadObs::Panic(p),
+    }
+}
+
 #[allow(clippy::too_many_arguments)]
 fn check<T, M>(cx: &mut Ctx, case: &Value, phase: Phase, dir: Dir, val: T, wire: Pkt, expect: Pkt, semantic: bool, to_ref: M)
 where
@@ -480,6 +507,29 @@ where
             &format!("{name}: the reader panicked on the protocol bytes {}: {p}", short_hex(&ref_body)),
             json!({"case": case, "panic": p, "body": hex(&ref_body)}),
         ),
+    }
+
+    // (c) the same bytes arriving in pieces (1 and 3 bytes per read): same value, same consumption
+    for step in [1usize, 3] {
+        match read_dribbled::<T>(&ref_body, step) {
+            ReadObs::Value(d, pos) => {
+                cx.tally("decode from a source delivering bytes in pieces", name);
+                if !judge(&d) || pos != ref_body.len() {
+                    cx.rep.violation(
+                        &format!("decode-in-pieces/{name}"),
+                        &format!("{name}: read from a source that delivers {step} byte(s) at a time the crate decodes {} (stopping at byte {pos} of {}), the encoded value was {}", brief(&d), ref_body.len(), brief(&val)),
+                        json!({"case": case, "clause": "decoding does not depend on how the bytes arrive", "bytes_per_read": step, "expected": format!("{val:?}"), "observed": format!("{d:?}"), "position": pos, "body": hex(&ref_body)}),
+                    );
+                }
+            }
+            ReadObs::Error(e) => cx.rep.violation(
+                &format!("decode-in-pieces/{name}/error"),
+                &format!("{name}: read from a source that delivers {step} byte(s) at a time the crate's reader fails: {e}"),
+                json!({"case": case, "bytes_per_read": step, "error": e, "body": hex(&ref_body)}),
+            ),
+            ReadObs::Pending => cx.rep.inconclusive_fatal("a packet read stayed Pending over an in-memory source"),
+            ReadObs::Panic(p) => cx.rep.violation(&format!("panic/decode/{name}"), &format!("{name}: the reader panicked on bytes arriving in pieces: {p}"), json!({"case": case, "panic": p, "body": hex(&ref_body)})),
+        }
     }
 
     if cx.sample {
